@@ -264,7 +264,7 @@ func init() {
 		Rule: "breadth-first search over all histories (bounded depth) of complete pushes of images, nested indexes, referrers, referrers of referrers, dangling and 'circular' subjects and a digest in several roles, step-by-step pushes, tag and digest deletes, virtual time (grace/2, 1.2 x grace: the directory store collects through the repository cache timer) and collection ticks delivered to the real gcTicker goroutine, for 8 (quick) / 32 (thorough) policy combinations on both stores; " +
 			"in every distinct state everything in the model's must-retain set (tagged manifests, closure over children/config/layers, referrers of retained subjects with their content, untagged manifests while untagged collection is off, everything younger than the grace period) must be served; non-trivial = a manifest is present",
 		Assume: []string{"only what every reading of the statement retains is demanded (an untagged artifact whose subject is gone is not, it is C06's documented garbage)", "tick period 15 min, grace 1 h or disabled"},
-		Specs:  func(tier string) []*h.SeqSpec { return append(c05Specs(tier), nestedSpecs(tier)...) },
+		Specs:  func(tier string) []*h.SeqSpec { return append(append(c05Specs(tier), nestedSpecs(tier)...), reuploadSpecs(tier)...) },
 		Budget: func(tier string) time.Duration {
 			if tier == "thorough" {
 				return 14 * time.Minute
